@@ -421,8 +421,17 @@ func runArith(o *Options, res *Result, rng *RNG) {
 			src = fmt.Sprintf("{%%= a|%s %%}", op.Name)
 		case call || isMinMax:
 			src = fmt.Sprintf("{%%= %s(a, %s) %%}", op.Name, bText)
+			switch i % 5 {
+			case 1: // no blank after the comma
+				src = fmt.Sprintf("{%%= %s(a,%s) %%}", op.Name, bText)
+			case 3: // blanks everywhere
+				src = fmt.Sprintf("{%%= %s( a , %s ) %%}", op.Name, bText)
+			}
 		default:
 			src = fmt.Sprintf("{%%= a|%s(%s) %%}", op.Name, bText)
+			if i%5 == 2 {
+				src = fmt.Sprintf("{%%= a|%s( %s ) %%}", op.Name, bText)
+			}
 		}
 		want := op.F(fa, fb)
 		if isMinMax {
